@@ -40,6 +40,8 @@ func ruleC19(r *Report) {
 	checkOneReply(r, p)
 	checkHash(r, p)
 	checkStoreErrors(r, p)
+	r.Rule("C19.keys", "the service registry and the backing store are written, read and deleted under the same key expressions: registry updates and deletes use one field path of the service record; within a handler all item-level store calls use one key; item keys are a collection prefix plus one %s", 10)
+	safely(r, func() { checkKeyAgreement(r, p) })
 	checkStoreFailureReplies(r, p)
 }
 
@@ -366,7 +368,7 @@ type replyAnalysis struct {
 }
 
 type replySummary struct {
-	all       replyRange // over all normal exits
+	all       replyRange  // over all normal exits
 	nilRes    *replyRange // exits returning a nil first result (pointer-returning functions)
 	nonNil    *replyRange // exits returning a non-nil first result
 	errNil    *replyRange // exits returning a nil error
@@ -793,6 +795,136 @@ func instrBefore(b *ssa.BasicBlock, x, y ssa.Instruction) bool {
 		}
 	}
 	return false
+}
+
+// checkKeyAgreement: C19.keys. The registry map and the backing store are written, read and deleted under the same key
+// expressions: (a) every update of and delete from the service registry uses the same field path of the service record
+// as key and the lookup is by the plain requested ID; (b) within one handler all item-level store calls use one key
+// expression, and item keys are the collection's List prefix followed by one %s.
+func checkKeyAgreement(r *Report, p *Prog) {
+	rule := "C19.keys"
+	idpPkg := modPath + "/samlidp"
+	var fns []*ssa.Function
+	for _, fn := range p.modFns {
+		if inPkg(fn, idpPkg) && p.InLibrary(fn) {
+			fns = append(fns, fn)
+		}
+	}
+	trimRoot := func(ap string) string {
+		if i := strings.Index(ap, "."); i >= 0 {
+			return ap[i:]
+		}
+		return ap
+	}
+	type site struct{ kind, key, pos, fn string }
+	var reg []site
+	prefixes := map[string]bool{}
+	type skey struct{ format, arg string }
+	for _, fn := range fns {
+		a := NewAnalysis(p)
+		fc := a.Ctx(fn)
+		perFn := map[string]map[skey]string{} // collection prefix -> key expr -> position
+		perFnInstr := map[string]map[skey][]ssa.Instruction{}
+		for _, b := range fn.Blocks {
+			for _, in := range b.Instrs {
+				switch x := in.(type) {
+				case *ssa.MapUpdate:
+					if strings.HasSuffix(addrPath(x.Map), "Server.serviceProviders") || strings.HasSuffix(fc.AP(x.Map), "Server.serviceProviders") {
+						reg = append(reg, site{"update", trimRoot(fc.AP(x.Key)), p.InstrPos(in), p.FnName(fn)})
+					}
+				case *ssa.Call:
+					if bi, ok := x.Call.Value.(*ssa.Builtin); ok && bi.Name() == "delete" && len(x.Call.Args) == 2 {
+						if strings.HasSuffix(fc.AP(x.Call.Args[0]), "Server.serviceProviders") {
+							reg = append(reg, site{"delete", trimRoot(fc.AP(x.Call.Args[1])), p.InstrPos(in), p.FnName(fn)})
+						}
+						continue
+					}
+					kind := storeCallKind(&x.Call)
+					if kind == "" || len(x.Call.Args) == 0 {
+						continue
+					}
+					keyArg := x.Call.Args[0] // interface call: the receiver is not among the arguments
+					if kind == "List" {
+						if pf, ok := constStr(keyArg); ok {
+							prefixes[pf] = true
+						}
+						continue
+					}
+					var k skey
+					if c, ok := keyArg.(*ssa.Call); ok && calleeIs(c, "fmt.Sprintf") {
+						k.format, _ = constStr(c.Call.Args[0])
+						if vs := varargValues(c); len(vs) == 1 {
+							k.arg = fc.AP(vs[0])
+						} else {
+							k.arg = "?"
+						}
+					} else {
+						k.format, k.arg = "?", fc.AP(keyArg)
+					}
+					coll := strings.TrimSuffix(k.format, "%s")
+					if perFn[coll] == nil {
+						perFn[coll] = map[skey]string{}
+					}
+					perFn[coll][k] = p.InstrPos(in)
+					if perFnInstr[coll] == nil {
+						perFnInstr[coll] = map[skey][]ssa.Instruction{}
+					}
+					perFnInstr[coll][k] = append(perFnInstr[coll][k], in)
+					okF := strings.HasSuffix(k.format, "/%s") && strings.Count(k.format, "%") == 1
+					r.Check(okF, rule, fmt.Sprintf("%s: %s key %q", p.FnName(fn), kind, k.format), p.InstrPos(in), "collection prefix + one %s", "the store key is not a collection prefix followed by exactly one %s")
+				}
+			}
+		}
+		for coll, ks := range perFn {
+			var descr []string
+			for k, pos := range ks {
+				descr = append(descr, fmt.Sprintf("%s(%s) at %s", k.format, k.arg, pos))
+			}
+			sort.Strings(descr)
+			// different keys matter only when both calls can happen in one execution
+			conflict := false
+			for k1, is1 := range perFnInstr[coll] {
+				for k2, is2 := range perFnInstr[coll] {
+					if k1 == k2 {
+						continue
+					}
+					for _, i1 := range is1 {
+						for _, i2 := range is2 {
+							if i1.Block() == i2.Block() || blockReaches(i1.Block(), i2.Block()) {
+								conflict = true
+							}
+						}
+					}
+				}
+			}
+			r.Check(len(ks) == 1 || !conflict, rule, fmt.Sprintf("%s: one key expression for %s", p.FnName(fn), coll), p.Pos(fn.Pos()), descr[0], "the handler addresses the same collection under different keys: "+strings.Join(descr, "; ")+" (what is read, written and deleted are not the same record)")
+		}
+		_ = a
+	}
+	// item collections are listed under the same prefix
+	// registry keys agree
+	keys := map[string][]string{}
+	for _, s := range reg {
+		keys[s.key] = append(keys[s.key], s.kind+" in "+s.fn+" at "+s.pos)
+	}
+	var ks []string
+	for k := range keys {
+		ks = append(ks, k)
+	}
+	sort.Strings(ks)
+	nUpd, nDel := 0, 0
+	for _, s := range reg {
+		if s.kind == "update" {
+			nUpd++
+		} else {
+			nDel++
+		}
+	}
+	detail := []string{}
+	for _, k := range ks {
+		detail = append(detail, k+": "+strings.Join(keys[k], ", "))
+	}
+	r.Check(len(ks) == 1 && nUpd >= 1 && nDel >= 1, rule, "service registry: entries are inserted and removed under the same key expression", "-", strings.Join(detail, " | "), "the registry is updated and deleted under different key expressions ("+strings.Join(detail, " | ")+"): an entry inserted under one spelling is never removed, so a deleted service keeps receiving assertions until restart")
 }
 
 func checkStoreErrors(r *Report, p *Prog) {
